@@ -64,9 +64,17 @@ fn closure(set: &ModuleSet, mi: usize) -> BTreeSet<usize> {
 }
 
 fn compile_subset(set: &ModuleSet, order: &[usize], cfg: &Cfg) -> (comp::Run, Option<Vec<Module>>) {
+    compile_subset_via(set, order, cfg, None)
+}
+
+/// `plan`: the way the sources are handed to the one Compiler (None = one literal per module)
+fn compile_subset_via(set: &ModuleSet, order: &[usize], cfg: &Cfg, plan: Option<&[comp::Step]>) -> (comp::Run, Option<Vec<Module>>) {
     let each = set.render_each();
     let srcs: Vec<String> = order.iter().map(|i| each[*i].clone()).collect();
-    let run = comp::rasn(&srcs, cfg);
+    let run = match plan {
+        Some(p) => comp::delivered(&srcs, cfg, p, false),
+        None => comp::rasn(&srcs, cfg),
+    };
     let mods = run.out.generated().and_then(|g| proj::project(g).ok());
     (run, mods)
 }
@@ -233,7 +241,15 @@ fn check_set(seed: u64, idx: u64, rep: &mut Report, max_variants: usize) {
             if v.len() == n && v == all {
                 continue;
             }
-            let (run, mods) = compile_subset(&set, &v, &cfg);
+            // one variant in three is handed over through another chain of the builder API (single paths, lists of paths, the
+            // output mode set before / between / after): the way of handing over is part of "handed to one Compiler"
+            let plan = if rng.chance(1, 3) { Some(comp::random_plan(&mut rng, v.len())) } else { None };
+            if let Some(p) = &plan {
+                rep.count("subset_compilations[handed over by a mixed builder chain]", 1);
+                let shape: Vec<&str> = p.iter().map(|s| match s { comp::Step::Literal(_) => "literal", comp::Step::Path(_) => "path", comp::Step::Paths(_) => "paths", comp::Step::SetOutput => "output" }).collect();
+                rep.note("delivery_chain_shapes", shape.join(">"));
+            }
+            let (run, mods) = compile_subset_via(&set, &v, &cfg, plan.as_deref());
             rep.evaluations += 1;
             check_env_events(&run, &origin, rep);
             let Some(mods) = mods else {
